@@ -33,7 +33,8 @@ REMOVE_SLOTS = {'list': ('__setitem__', '__delitem__', 'clear', 'pop', 'remove')
 # reading; each then carries the per-rule obligations below).
 RAW_WRITE_OWNERS = {
     S.LIST + '._set_item_without_permission_check': 'the list write primitive',
-    S.LIST + '.__delitem__': 'guarded delete',
+    S.LIST + '._remove_item_without_permission_check': 'the list removal primitive (callers: guarded __delitem__, '
+                                                       'shrinking slice assignment)',
     S.LIST + '.clear': 'guarded clear',
     S.LIST + '.sort': 'guarded sort',
     S.LIST + '.reverse': 'guarded reverse',
